@@ -4,6 +4,10 @@ import (
 	"bytes"
 	"encoding/json"
 	"fmt"
+	"sort"
+	"time"
+
+	"go.sia.tech/core/consensus"
 
 	"go.sia.tech/core/gateway"
 	"go.sia.tech/core/types"
@@ -14,19 +18,77 @@ import (
 type outlineCase struct {
 	K1       int    `json:"k1"`
 	K2       int    `json:"k2"`
-	Omit     []int  `json:"omit"` // omitted positions, 1-based over v1 ++ v2
+	Ids      []int  `json:"ids"`    // per position (v1 ++ v2) the id of the transaction it carries: equal ids = the same transaction
+	Omit     []int  `json:"omit"`   // omitted positions, 1-based over v1 ++ v2
+	OmitRm   []int  `json:"omitrm"` // what OutlineBlock / RemoveTransactions omit when asked for the transactions at Omit: every position carrying one of them
 	Class    string `json:"class"`
-	Pool1    []int  `json:"pool1"` // ids: 1..k = the block's transaction at that position, 101/103 unrelated v1, 102/104 unrelated v2
+	Pool1    []int  `json:"pool1"` // ids: the block's transaction with that id, 101/103 unrelated v1, 102/104 unrelated v2
 	Pool2    []int  `json:"pool2"`
 	Complete bool   `json:"complete"`
-	Missing  []int  `json:"missing"`
-	Kinds    []int  `json:"kinds"` // per position: 0 v1 present, 1 v2 present, 2 hash only
+	Missing  []int  `json:"missing"` // positions still unresolved after the call
+	Pool1b   []int  `json:"pool1b"`  // pool of the second call on the same outline (offers the rest)
+	Pool2b   []int  `json:"pool2b"`
+	Kinds    []int  `json:"kinds"`   // per position: 0 v1 present, 1 v2 present, 2 hash only
+	KindsRm  []int  `json:"kindsrm"` // the same for the outline OutlineBlock returns
 	raw      string
 }
 
-func parseOutlineCases(lines []string) (map[[2]int][]*outlineCase, int, error) {
-	out := map[[2]int][]*outlineCase{}
-	n := 0
+// repeated: some transaction occurs at more than one position of the block.
+func repeatedIDs(ids []int) bool {
+	seen := map[int]bool{}
+	for _, id := range ids {
+		if seen[id] {
+			return true
+		}
+		seen[id] = true
+	}
+	return false
+}
+
+func sameInts(a, b []int) bool {
+	if len(a) != len(b) {
+		return false
+	}
+	for i := range a {
+		if a[i] != b[i] {
+			return false
+		}
+	}
+	return true
+}
+
+// a pattern of equal members: k1 v1 positions, k2 v2 positions, n1 / n2 distinct transactions
+type pattern struct {
+	key            string
+	k1, k2, n1, n2 int
+	ids            []int
+}
+
+func patternOf(k1 int, ids []int) pattern {
+	p := pattern{k1: k1, k2: len(ids) - k1, ids: ids, key: fmt.Sprintf("%d|%v", k1, ids)}
+	d1, d2 := map[int]bool{}, map[int]bool{}
+	for j, id := range ids {
+		if j < k1 {
+			d1[id] = true
+		} else {
+			d2[id] = true
+		}
+	}
+	p.n1, p.n2 = len(d1), len(d2)
+	return p
+}
+
+type outlineCases struct {
+	byShape   map[[2]int][]*outlineCase // blocks of distinct transactions, by (k1, k2)
+	byPattern map[string][]*outlineCase // blocks with repeated transactions, by pattern key
+	patterns  []pattern                 // the patterns with repeats, sorted by key
+	byClasses map[[2]int][]pattern      // ... by (n1, n2)
+	n, nRep   int
+	maxTx     int
+}
+
+func parseOutlineCases(lines []string) (*outlineCases, error) {
+	out := &outlineCases{byShape: map[[2]int][]*outlineCase{}, byPattern: map[string][]*outlineCase{}, byClasses: map[[2]int][]pattern{}}
 	for _, ln := range lines {
 		const tag = "OUTLINE "
 		if len(ln) < len(tag) || ln[:len(tag)] != tag {
@@ -35,13 +97,33 @@ func parseOutlineCases(lines []string) (map[[2]int][]*outlineCase, int, error) {
 		js := vlib.UnquoteTLA(ln[len(tag):])
 		oc := &outlineCase{raw: js}
 		if err := json.Unmarshal([]byte(js), oc); err != nil {
-			return nil, 0, fmt.Errorf("OUTLINE line does not parse: %v: %.200s", err, js)
+			return nil, fmt.Errorf("OUTLINE line does not parse: %v: %.200s", err, js)
 		}
-		k := [2]int{oc.K1, oc.K2}
-		out[k] = append(out[k], oc)
-		n++
+		if len(oc.Ids) != oc.K1+oc.K2 || len(oc.Kinds) != len(oc.Ids) || len(oc.KindsRm) != len(oc.Ids) {
+			return nil, fmt.Errorf("OUTLINE line is inconsistent: %.200s", js)
+		}
+		if len(oc.Ids) > out.maxTx {
+			out.maxTx = len(oc.Ids)
+		}
+		out.n++
+		if !repeatedIDs(oc.Ids) {
+			k := [2]int{oc.K1, oc.K2}
+			out.byShape[k] = append(out.byShape[k], oc)
+			continue
+		}
+		out.nRep++
+		p := patternOf(oc.K1, oc.Ids)
+		if out.byPattern[p.key] == nil {
+			out.patterns = append(out.patterns, p)
+		}
+		out.byPattern[p.key] = append(out.byPattern[p.key], oc)
 	}
-	return out, n, nil
+	sort.Slice(out.patterns, func(i, j int) bool { return out.patterns[i].key < out.patterns[j].key })
+	for _, p := range out.patterns {
+		k := [2]int{p.n1, p.n2}
+		out.byClasses[k] = append(out.byClasses[k], p)
+	}
+	return out, nil
 }
 
 func copyV1(t types.Transaction) types.Transaction {
@@ -130,14 +212,34 @@ func outlinesEqual(a, b *gateway.V2BlockOutline) string {
 	return ""
 }
 
+// sameBlock compares a completed block with the original ("" = exactly the original block).
+func sameBlock(cs consensus.State, got, orig types.Block) string {
+	switch {
+	case got.ID() != orig.ID():
+		return "completed block has another ID than the original"
+	case got.V2 == nil || got.V2.Commitment != orig.V2.Commitment || got.V2.Height != orig.V2.Height:
+		return "completed block has another commitment/height than the original"
+	case len(got.MinerPayouts) == 0 || cs.Commitment(got.MinerPayouts[0].Address, got.Transactions, got.V2Transactions()) != orig.V2.Commitment:
+		return "State.Commitment over the completed block differs from the original commitment"
+	case !bytes.Equal(encV1(got.Transactions), encV1(orig.Transactions)) || !bytes.Equal(fullEnc(got.V2Transactions()), fullEnc(orig.V2Transactions())):
+		return fmt.Sprintf("transactions of the completed block differ from the original (%d v1 + %d v2 for %d v1 + %d v2; proofs included)",
+			len(got.Transactions), len(got.V2Transactions()), len(orig.Transactions), len(orig.V2Transactions()))
+	case !bytes.Equal(enc(types.V2Block(got)), enc(types.V2Block(orig))):
+		return "completed block differs from the original (payouts or header)"
+	}
+	return ""
+}
+
 // checkOutline runs one TLC outline case on one real block. variant selects which of the equivalent doors is used
 // (OutlineBlock with the omitted transactions vs. OutlineBlock + RemoveTransactions; Complete on the outline itself
-// vs. on its decoded wire form).
+// vs. on its decoded wire form). The block may carry the same transaction at several positions (oc.Ids); where the
+// case omits only some positions of a transaction, the outline under test is the per-position one (as any peer may
+// send it) and OutlineBlock is checked against the specification's answer for it (every position omitted).
 func checkOutline(rb *realBlock, oc *outlineCase, variant int) (fs []finding) {
 	add := func(key, f string, a ...any) { fs = append(fs, finding{key, fmt.Sprintf(f, a...)}) }
 	orig := rb.b
 	k1, k2 := len(orig.Transactions), len(orig.V2Transactions())
-	if k1 != oc.K1 || k2 != oc.K2 || orig.V2 == nil {
+	if k1 != oc.K1 || k2 != oc.K2 || orig.V2 == nil || len(oc.Ids) != k1+k2 {
 		return []finding{{"harness", "block shape does not match the case"}}
 	}
 	b := copyBlock(orig)
@@ -147,13 +249,28 @@ func checkOutline(rb *realBlock, oc *outlineCase, variant int) (fs []finding) {
 		}
 		return orig.V2.Transactions[pos-1-k1].MerkleLeafHash()
 	}
+	posOf := map[int]int{} // id -> first position carrying it
+	for j := k1 + k2; j >= 1; j-- {
+		posOf[oc.Ids[j-1]] = j
+	}
+	for i := 1; i <= k1+k2; i++ {
+		for j := i + 1; j <= k1+k2; j++ {
+			if (oc.Ids[i-1] == oc.Ids[j-1]) != (hashAt(i) == hashAt(j)) {
+				return []finding{{"harness", fmt.Sprintf("positions %d and %d: equal transactions in the block do not match the pattern %v of the case", i, j, oc.Ids)}}
+			}
+		}
+	}
+	hashesAt := func(ps []int) (hs []types.Hash256) {
+		for _, pos := range ps {
+			hs = append(hs, hashAt(pos))
+		}
+		return
+	}
 	var rm1 []types.Transaction
 	var rm2 []types.V2Transaction
 	var like1 *types.Transaction
 	var like2 *types.V2Transaction
-	var wantMissing0 []types.Hash256
 	for _, pos := range oc.Omit {
-		wantMissing0 = append(wantMissing0, hashAt(pos))
 		if pos <= k1 {
 			rm1 = append(rm1, copyV1(orig.Transactions[pos-1]))
 			if like1 == nil {
@@ -179,90 +296,141 @@ func checkOutline(rb *realBlock, oc *outlineCase, variant int) (fs []finding) {
 		return
 	}
 	// shape: which positions carry a transaction
-	if len(bo.Transactions) != k1+k2 {
-		add("outline-shape", "outline has %d entries for a block of %d transactions", len(bo.Transactions), k1+k2)
-		return
+	shapeOK := func(o *gateway.V2BlockOutline, kinds []int, omit []int) bool {
+		if len(o.Transactions) != k1+k2 {
+			add("outline-shape", "outline has %d entries for a block of %d transactions", len(o.Transactions), k1+k2)
+			return false
+		}
+		for i, ot := range o.Transactions {
+			kind := 2
+			if ot.Transaction != nil {
+				kind = 0
+			} else if ot.V2Transaction != nil {
+				kind = 1
+			}
+			if kind != kinds[i] {
+				add("outline-shape", "entry %d of the outline has kind %d, specification %d (omitted %v)", i, kind, kinds[i], omit)
+				return false
+			}
+			if ot.Hash != hashAt(i+1) {
+				add("outline-shape", "entry %d of the outline carries the wrong hash", i)
+				return false
+			}
+		}
+		return true
 	}
-	for i, ot := range bo.Transactions {
-		kind := 2
-		if ot.Transaction != nil {
-			kind = 0
-		} else if ot.V2Transaction != nil {
-			kind = 1
-		}
-		if kind != oc.Kinds[i] {
-			add("outline-shape", "entry %d of the outline has kind %d, specification %d (omitted %v)", i, kind, oc.Kinds[i], oc.Omit)
-			return
-		}
-		if ot.Hash != hashAt(i+1) {
-			add("outline-shape", "entry %d of the outline carries the wrong hash", i)
-			return
-		}
+	if !shapeOK(&bo, oc.KindsRm, oc.OmitRm) {
+		return
 	}
 	if id := bo.ID(rb.cs); id != orig.ID() {
-		add("outline-id", "outline ID %v differs from the block ID %v (omitted %v)", id, orig.ID(), oc.Omit)
+		add("outline-id", "outline ID %v differs from the block ID %v (omitted %v)", id, orig.ID(), oc.OmitRm)
 	}
-	if !sameHashes(bo.Missing(), wantMissing0) {
-		add("outline-missing", "Missing() reports %d hashes, expected exactly the %d omitted ones %v", len(bo.Missing()), len(wantMissing0), oc.Omit)
+	if want := hashesAt(oc.OmitRm); !sameHashes(bo.Missing(), want) {
+		add("outline-missing", "Missing() reports %d hashes, expected exactly the %d omitted ones %v", len(bo.Missing()), len(want), oc.OmitRm)
+	}
+	// the outline under test
+	ut := &bo
+	if !sameInts(oc.Omit, oc.OmitRm) {
+		// the same transaction in full at one position and as a hash at another: built per position
+		var pp gateway.V2BlockOutline
+		if p, v := vlib.Recover(func() { pp = gateway.OutlineBlock(b, nil, nil) }); p {
+			add("outline-panics", "OutlineBlock panics: %v", v)
+			return
+		}
+		if len(pp.Transactions) != k1+k2 {
+			add("outline-shape", "outline has %d entries for a block of %d transactions", len(pp.Transactions), k1+k2)
+			return
+		}
+		for _, pos := range oc.Omit {
+			pp.Transactions[pos-1].Transaction, pp.Transactions[pos-1].V2Transaction = nil, nil
+		}
+		if !shapeOK(&pp, oc.Kinds, oc.Omit) {
+			return
+		}
+		if id := pp.ID(rb.cs); id != orig.ID() {
+			add("outline-id", "outline ID %v differs from the block ID %v (omitted %v)", id, orig.ID(), oc.Omit)
+		}
+		if want := hashesAt(oc.Omit); !sameHashes(pp.Missing(), want) {
+			add("outline-missing", "Missing() reports %d hashes, expected exactly the %d omitted ones %v", len(pp.Missing()), len(want), oc.Omit)
+		}
+		ut = &pp
 	}
 	// codec round trip
-	var wire []byte
-	if p, v := vlib.Recover(func() { wire = encFn(func(e *types.Encoder) { gateway.VerifEncodeOutline(&bo, e) }) }); p {
-		add("outline-codec-panics", "outline encoder panics: %v", v)
+	roundTrip := func(o *gateway.V2BlockOutline, omit []int) (dec gateway.V2BlockOutline, ok bool) {
+		var wire []byte
+		if p, v := vlib.Recover(func() { wire = encFn(func(e *types.Encoder) { gateway.VerifEncodeOutline(o, e) }) }); p {
+			add("outline-codec-panics", "outline encoder panics: %v", v)
+			return
+		}
+		r := bytes.NewReader(wire)
+		d := types.NewDecoder(limited(r, len(wire)))
+		if p, v := vlib.Recover(func() { gateway.VerifDecodeOutline(&dec, d) }); p {
+			add("outline-codec-panics", "outline decoder panics on the encoder's own output: %v", v)
+			return
+		}
+		if d.Err() != nil {
+			add("outline-codec", "outline decoder refuses the encoder's own output: %v", d.Err())
+			return
+		}
+		if r.Len() != 0 {
+			add("outline-codec", "outline decoder leaves %d bytes unread", r.Len())
+		}
+		if msg := outlinesEqual(o, &dec); msg != "" {
+			add("outline-codec", "outline codec round trip is not the identity: %s (omitted %v)", msg, omit)
+			return
+		}
+		if again := encFn(func(e *types.Encoder) { gateway.VerifEncodeOutline(&dec, e) }); !bytes.Equal(again, wire) {
+			add("outline-codec", "re-encoding the decoded outline gives different bytes")
+		}
+		if dec.ID(rb.cs) != orig.ID() {
+			add("outline-id", "decoded outline has another ID than the block")
+		}
+		return dec, true
+	}
+	if ut != &bo {
+		if _, ok := roundTrip(&bo, oc.OmitRm); !ok {
+			return
+		}
+	}
+	dec, ok := roundTrip(ut, oc.Omit)
+	if !ok {
 		return
-	}
-	var dec gateway.V2BlockOutline
-	r := bytes.NewReader(wire)
-	d := types.NewDecoder(limited(r, len(wire)))
-	if p, v := vlib.Recover(func() { gateway.VerifDecodeOutline(&dec, d) }); p {
-		add("outline-codec-panics", "outline decoder panics on the encoder's own output: %v", v)
-		return
-	}
-	if d.Err() != nil {
-		add("outline-codec", "outline decoder refuses the encoder's own output: %v", d.Err())
-		return
-	}
-	if r.Len() != 0 {
-		add("outline-codec", "outline decoder leaves %d bytes unread", r.Len())
-	}
-	if msg := outlinesEqual(&bo, &dec); msg != "" {
-		add("outline-codec", "outline codec round trip is not the identity: %s (omitted %v)", msg, oc.Omit)
-		return
-	}
-	if again := encFn(func(e *types.Encoder) { gateway.VerifEncodeOutline(&dec, e) }); !bytes.Equal(again, wire) {
-		add("outline-codec", "re-encoding the decoded outline gives different bytes")
-	}
-	if dec.ID(rb.cs) != orig.ID() {
-		add("outline-id", "decoded outline has another ID than the block")
 	}
 	// completion
-	var pool1 []types.Transaction
-	var pool2 []types.V2Transaction
-	for _, id := range oc.Pool1 {
-		switch {
-		case id >= 1 && id <= k1:
-			pool1 = append(pool1, copyV1(orig.Transactions[id-1]))
-		case id == 101:
-			pool1 = append(pool1, extraV1(id, nil))
-		case id == 103:
-			pool1 = append(pool1, extraV1(id, like1))
-		default:
-			return []finding{{"harness", fmt.Sprintf("pool1 id %d cannot be mapped", id)}}
+	poolsOf := func(ids1, ids2 []int) (pool1 []types.Transaction, pool2 []types.V2Transaction, err error) {
+		for _, id := range ids1 {
+			pos, own := posOf[id]
+			switch {
+			case own && pos <= k1:
+				pool1 = append(pool1, copyV1(orig.Transactions[pos-1]))
+			case id == 101:
+				pool1 = append(pool1, extraV1(id, nil))
+			case id == 103:
+				pool1 = append(pool1, extraV1(id, like1))
+			default:
+				return nil, nil, fmt.Errorf("pool1 id %d cannot be mapped", id)
+			}
 		}
-	}
-	for _, id := range oc.Pool2 {
-		switch {
-		case id > k1 && id <= k1+k2:
-			pool2 = append(pool2, orig.V2.Transactions[id-1-k1].DeepCopy())
-		case id == 102:
-			pool2 = append(pool2, extraV2(id, nil))
-		case id == 104:
-			pool2 = append(pool2, extraV2(id, like2))
-		default:
-			return []finding{{"harness", fmt.Sprintf("pool2 id %d cannot be mapped", id)}}
+		for _, id := range ids2 {
+			pos, own := posOf[id]
+			switch {
+			case own && pos > k1:
+				pool2 = append(pool2, orig.V2.Transactions[pos-1-k1].DeepCopy())
+			case id == 102:
+				pool2 = append(pool2, extraV2(id, nil))
+			case id == 104:
+				pool2 = append(pool2, extraV2(id, like2))
+			default:
+				return nil, nil, fmt.Errorf("pool2 id %d cannot be mapped", id)
+			}
 		}
+		return
 	}
-	target := &bo
+	pool1, pool2, err := poolsOf(oc.Pool1, oc.Pool2)
+	if err != nil {
+		return []finding{{"harness", err.Error()}}
+	}
+	target := ut
 	if variant&2 != 0 {
 		target = &dec
 	}
@@ -272,29 +440,183 @@ func checkOutline(rb *realBlock, oc *outlineCase, variant int) (fs []finding) {
 		add("complete-panics", "Complete panics: %v", v)
 		return
 	}
-	var wantMissing []types.Hash256
-	for _, pos := range oc.Missing {
-		wantMissing = append(wantMissing, hashAt(pos))
-	}
+	wantMissing := hashesAt(oc.Missing)
 	if !sameHashes(missing, wantMissing) {
-		add("complete-missing/"+oc.Class, "Complete reports %d missing hashes, expected exactly %d (omitted %v, still missing %v, pool class %s)", len(missing), len(wantMissing), oc.Omit, oc.Missing, oc.Class)
+		add("complete-missing/"+oc.Class, "Complete reports %d missing hashes, expected exactly %d (transactions by position %v, omitted %v, still missing %v, pool class %s)", len(missing), len(wantMissing), oc.Ids, oc.Omit, oc.Missing, oc.Class)
 	}
 	if !sameHashes(target.Missing(), wantMissing) {
 		add("complete-missing/"+oc.Class, "after Complete, Missing() reports %d hashes, expected %d", len(target.Missing()), len(wantMissing))
 	}
 	if oc.Complete {
-		switch {
-		case got.ID() != orig.ID():
-			add("complete-block/"+oc.Class, "completed block has another ID than the original (pool class %s)", oc.Class)
-		case got.V2 == nil || got.V2.Commitment != orig.V2.Commitment || got.V2.Height != orig.V2.Height:
-			add("complete-block/"+oc.Class, "completed block has another commitment/height than the original")
-		case len(got.MinerPayouts) == 0 || rb.cs.Commitment(got.MinerPayouts[0].Address, got.Transactions, got.V2Transactions()) != orig.V2.Commitment:
-			add("complete-block/"+oc.Class, "State.Commitment over the completed block differs from the original commitment")
-		case !bytes.Equal(encV1(got.Transactions), encV1(orig.Transactions)) || !bytes.Equal(fullEnc(got.V2Transactions()), fullEnc(orig.V2Transactions())):
-			add("complete-block/"+oc.Class, "transactions of the completed block differ from the original (proofs included)")
-		case !bytes.Equal(enc(types.V2Block(got)), enc(types.V2Block(orig))):
-			add("complete-block/"+oc.Class, "completed block differs from the original (payouts or header)")
+		if msg := sameBlock(rb.cs, got, orig); msg != "" {
+			add("complete-block/"+oc.Class, "%s (transactions by position %v, omitted %v, pool class %s)", msg, oc.Ids, oc.Omit, oc.Class)
 		}
+		return
+	}
+	// second call on the same outline: the rest arrives
+	pool1, pool2, err = poolsOf(oc.Pool1b, oc.Pool2b)
+	if err != nil {
+		return []finding{{"harness", err.Error()}}
+	}
+	if p, v := vlib.Recover(func() { got, missing = target.Complete(rb.cs, pool1, pool2) }); p {
+		add("complete-panics", "second Complete on the same outline panics: %v", v)
+		return
+	}
+	if len(missing) != 0 || len(target.Missing()) != 0 {
+		add("complete2-missing/"+oc.Class, "second Complete on the same outline was offered everything the first one reported missing, and reports %d hashes missing (Missing(): %d; transactions by position %v, omitted %v, missing after the first call %v)", len(missing), len(target.Missing()), oc.Ids, oc.Omit, oc.Missing)
+	}
+	if msg := sameBlock(rb.cs, got, orig); msg != "" {
+		add("complete2-block/"+oc.Class, "after the second Complete (offered the rest): %s (transactions by position %v, omitted %v, missing after the first call %v)", msg, oc.Ids, oc.Omit, oc.Missing)
 	}
 	return
+}
+
+// ---------------------------------------------------------------------------
+// blocks that carry the same transaction at several positions
+
+func dataV1(salt types.Hash256, id int) types.Transaction {
+	n := 1 + int(salt[id%32])%3
+	t := types.Transaction{}
+	for i := 0; i < n; i++ {
+		t.ArbitraryData = append(t.ArbitraryData, []byte(fmt.Sprintf("verif: v1 data-only transaction %d/%d on %x", id, i, salt[:8+int(salt[(id+i)%32])%16])))
+	}
+	return t
+}
+
+func dataV2(salt types.Hash256, id int) types.V2Transaction {
+	return types.V2Transaction{ArbitraryData: []byte(fmt.Sprintf("verif: v2 data-only transaction %d on %x", id, salt[:8+int(salt[id%32])%16]))}
+}
+
+func v1Allowed(cs consensus.State) bool {
+	return cs.Index.Height+1 < cs.Network.HardforkV2.RequireHeight
+}
+
+// repeatedBlock builds the block of pattern (k1, ids) on the parent state of base.
+//
+// chain: a VALID block (real ValidateBlock accepts it, real ApplyBlock gives its successor state). A transaction
+// that occurs several times spends nothing (arbitrary data only: the kind consensus admits any number of times);
+// transactions occurring once are the base block's own, in their order, as far as they go and as long as the block
+// stays valid, data-only ones otherwise.
+//
+// synthetic: validity is not asked for (as for the other synthetic blocks): transaction c of the pattern is the base
+// block's c-th, so transactions with inputs, proofs and fees occur several times.
+func repeatedBlock(base *realBlock, k1 int, ids []int) (*realBlock, error) {
+	k2 := len(ids) - k1
+	if base.b.V2 == nil || k1 < 0 || k2 < 0 || len(base.b.MinerPayouts) != 1 {
+		return nil, fmt.Errorf("repeated block: unusable base block or pattern")
+	}
+	count := map[int]int{}
+	for _, id := range ids {
+		count[id]++
+	}
+	salt := types.Hash256(base.b.ID())
+	cs := base.cs
+	rp := map[string]any{}
+	for k, v := range base.replay {
+		rp[k] = v
+	}
+	rp["pattern"] = map[string]any{"k1": k1, "ids": ids}
+	build := func(useBase bool) (types.Block, consensus.V1BlockSupplement, int) {
+		type pick1 struct {
+			t types.Transaction
+			s consensus.V1TransactionSupplement
+		}
+		c1 := map[int]pick1{}
+		c2 := map[int]types.V2Transaction{}
+		next1, next2, used := 0, 0, 0
+		var v1 []types.Transaction
+		var v2 []types.V2Transaction
+		supp := consensus.V1BlockSupplement{ExpiringFileContracts: base.supp.ExpiringFileContracts}
+		for j, id := range ids {
+			if j < k1 {
+				p, ok := c1[id]
+				if !ok {
+					switch {
+					case base.src == "synthetic":
+						p = pick1{t: base.b.Transactions[next1]}
+						next1++
+					case useBase && count[id] == 1 && next1 < len(base.b.Transactions) && next1 < len(base.supp.Transactions):
+						p = pick1{base.b.Transactions[next1], base.supp.Transactions[next1]}
+						next1++
+						used++
+					default:
+						p = pick1{t: dataV1(salt, id)}
+					}
+					c1[id] = p
+				}
+				v1 = append(v1, copyV1(p.t))
+				supp.Transactions = append(supp.Transactions, p.s)
+			} else {
+				t, ok := c2[id]
+				if !ok {
+					switch {
+					case base.src == "synthetic":
+						t = base.b.V2.Transactions[next2]
+						next2++
+					case useBase && count[id] == 1 && next2 < len(base.b.V2.Transactions):
+						t = base.b.V2.Transactions[next2]
+						next2++
+						used++
+					default:
+						t = dataV2(salt, id)
+					}
+					c2[id] = t
+				}
+				v2 = append(v2, t.DeepCopy())
+			}
+		}
+		pay := cs.BlockReward()
+		for i := range v1 {
+			pay = pay.Add(v1[i].TotalFees())
+		}
+		for i := range v2 {
+			pay = pay.Add(v2[i].MinerFee)
+		}
+		miner := base.b.MinerPayouts[0].Address
+		b := types.Block{ParentID: base.b.ParentID, Nonce: base.b.Nonce, Timestamp: base.b.Timestamp,
+			MinerPayouts: []types.SiacoinOutput{{Address: miner, Value: pay}}, Transactions: v1,
+			V2: &types.V2BlockData{Height: base.b.V2.Height, Transactions: v2}}
+		b.V2.Commitment = cs.Commitment(miner, b.Transactions, b.V2Transactions())
+		return b, supp, used
+	}
+	if base.src == "synthetic" {
+		p := patternOf(k1, ids)
+		if p.n1 > len(base.b.Transactions) || p.n2 > len(base.b.V2.Transactions) {
+			return nil, fmt.Errorf("repeated block: pattern %v needs %d v1 + %d v2 transactions, the base block has %d + %d", ids, p.n1, p.n2, len(base.b.Transactions), len(base.b.V2.Transactions))
+		}
+		b, _, _ := build(false)
+		return &realBlock{cs: cs, b: b, src: base.src, rep: true, replay: rp}, nil
+	}
+	if k1 > 0 && !v1Allowed(cs) {
+		return nil, fmt.Errorf("repeated block: pattern with v1 transactions at a height where none are allowed")
+	}
+	var lastErr error
+	for _, useBase := range []bool{true, false} {
+		b, supp, used := build(useBase)
+		if useBase && used == 0 {
+			continue
+		}
+		b.Nonce = 0
+		for tries := 0; b.ID().CmpWork(cs.PoWTarget()) < 0; tries++ {
+			if tries > 1<<22 {
+				return nil, fmt.Errorf("repeated block: no nonce found")
+			}
+			b.Nonce += cs.NonceFactor()
+		}
+		var verr error
+		if p, v := vlib.Recover(func() { verr = consensus.ValidateBlock(cs, b, supp) }); p {
+			verr = fmt.Errorf("ValidateBlock panics: %v", v)
+		}
+		if verr != nil {
+			lastErr = verr
+			continue
+		}
+		var next consensus.State
+		if p, v := vlib.Recover(func() { next, _ = consensus.ApplyBlock(cs, b, supp, time.Time{}) }); p {
+			lastErr = fmt.Errorf("ApplyBlock panics: %v", v)
+			continue
+		}
+		return &realBlock{cs: cs, b: b, supp: supp, next: &next, src: base.src, rep: true, baseTxs: used, replay: rp}, nil
+	}
+	return nil, fmt.Errorf("repeated block of pattern %v (k1=%d) at height %d is not accepted by ValidateBlock: %v", ids, k1, cs.Index.Height+1, lastErr)
 }
